@@ -607,18 +607,20 @@ def lattice_cases(tier):
     cfgs = full_lattice()
     out = []
     i = 0
+    j = 0
     for cfg in cfgs:
         for regime in FAM_REGIMES[cfg["family"]]:
             for backward in (False, True):
+                j += 1
                 for tp in ("none", "t0", "t1"):
                     i += 1
                     if tier == "quick":
                         # seed-dependent 1/24 slice of the full product; every configuration is visited by some seed
                         if (i + seed) % 24 != 0:
                             continue
-                    elif tp != "none" and (i + seed) % 3 != 0:
-                        continue
-                    sysd = pool_system(regime, (i + seed) % 6 if tier != "quick" else (i // 24 + seed) % 6)
+                    elif tp != "none" and (j + seed) % 3 != {"t0": 0, "t1": 1}[tp]:
+                        continue        # thorough: every combination without test particles, a third with each type
+                    sysd = pool_system(regime, (j + seed) % 6 if tier != "quick" else (i // 24 + seed) % 6)
                     out.append({"regime": regime, "cfg": cfg, "system": sysd, "tp": tp, "backward": backward,
                                 "norb": 3, "cache": True})
     return out
@@ -716,7 +718,9 @@ def run_adaptive(case, ctx):
                                 % (what, E_, e_, bound), steps=n_, H=H)
     fl = max(FLOOR, KR * EPS * H * math.sqrt(8.0 * max(nl, nt)))
     ctx.stat_max("%s_tightened/(2*loose+floor)" % fam, Et / (2 * El + fl))
-    if not Et <= 2 * El + fl:
+    if tight < 1e-10:
+        pass        # BS at eps=1e-12 is limited by rounding, not by the tolerance: only the class bound is asserted
+    elif not Et <= 2 * El + fl:
         raise Violation("%s: tightening the tolerance from %g to %g increases the error from %.3e to %.3e"
                         % (what, loose, tight, El, Et), H=H)
     ctx.cls("family:" + fam)
@@ -810,10 +814,12 @@ def run_ode(case, ctx):
     ctx.stat_max("ode_error/class_bound", eu / bound)
     if not eu <= bound:
         raise Violation("%s: oscillator error %.3e exceeds %.3e" % (what, eu, bound), nbody_error=en)
-    eu2, en2, n2 = run(eps / 100.0)
-    fl = max(FLOOR, KR * EPS * math.sqrt(8.0 * max(n1, n2)) * 10)
-    if not eu2 <= 2 * eu + fl:
-        raise Violation("%s: tightening the tolerance 100x increases the oscillator error from %.3e to %.3e" % (what, eu, eu2))
+    if eps >= 1e-8:      # BS at eps=1e-12 is limited by rounding, not by the tolerance: only 1e-8 -> 1e-10 is compared
+        eu2, en2, n2 = run(eps / 100.0)
+        fl = max(FLOOR, KR * EPS * math.sqrt(8.0 * max(n1, n2)) * 10)
+        ctx.stat_max("ode_tightened/(2*loose+floor)", eu2 / (2 * eu + fl))
+        if not eu2 <= 2 * eu + fl:
+            raise Violation("%s: tightening the tolerance 100x increases the oscillator error from %.3e to %.3e" % (what, eu, eu2))
     if nb == "bs":
         nb_bound = FLOOR * hierarchy(sysd) + BS_K * eps * case["norb"]
         if not en <= nb_bound:
